@@ -2176,6 +2176,9 @@ class SSHTunTapChannel(SSHForwardChannel[bytes]):
         """Strip off address family on incoming packets in TUN mode"""
 
         if self._mode == SSH_TUN_MODE_POINTTOPOINT:
+            # The address family was counted against the window by the
+            # sender but is never delivered, so give it back here
+            self._consume_recv_window(min(len(data), 4))
             data = data[4:]
 
         super()._accept_data(data, datatype)
